@@ -811,6 +811,7 @@ def _self_fields(func_node, recv='self'):
 
 
 def _eq_hash_semantic(ctx, mdl, cls):
+    from svtstatic.values import PyRaise
     """eq / ne / hash of a segment class decided by probing: two objects that differ in exactly one constructor field compare
     unequal (and != agrees), identical ones compare equal and hash alike, and the hash does not move when anything that __eq__
     does not compare is changed.  -> dict of verdicts keyed like the syntactic rule, or None when the probe leaves the fragment"""
@@ -840,9 +841,14 @@ def _eq_hash_semantic(ctx, mdl, cls):
     def hash_hook(it, a, k):
         return Rat.sym('h' + hashlib.sha1(struct(a[0]).encode()).hexdigest()[:12])
 
+    if cls.name == 'Path':
+        defining = ['_segments']
+
     def th(it):
         if cls.name == 'Arc':
             a = sym_arc(it, 'A', False, True)
+        elif cls.name == 'Path':
+            a = it.construct('path.Path', it.construct('path.Line', Rat.csym('A0'), Rat.csym('B0')), it.construct('path.Line', Rat.csym('A1'), Rat.csym('B1')))
         else:
             a = it.construct('path.' + cls.name, *cpoints(len(params)))
 
@@ -856,6 +862,10 @@ def _eq_hash_semantic(ctx, mdl, cls):
             v = a.attrs[f]
             if isinstance(v, bool):
                 return not v
+            if isinstance(v, list):        # a path's segment list: the same list with its last segment replaced by a different one
+                last = v[-1]
+                other = it.construct('path.Line', to_rat(last.attrs['start']) + Rat.csym('ALT_' + f), last.attrs['end'])
+                return list(v[:-1]) + [other]
             return Rat.csym('ALT_' + f) + to_rat(v)
         eq = lambda x, y: bool(it.truth(it.compare_vals('eq', x, y)))
         ne = lambda x, y: bool(it.truth(it.compare_vals('ne', x, y)))
@@ -865,13 +875,26 @@ def _eq_hash_semantic(ctx, mdl, cls):
         h0 = hv(a)
         out['hash_same'] = _struct_equal(h0, hv(clone({})))
         out['hash_moves'] = {}
-        for g, v in a.attrs.items():
+        state = dict(a.attrs)
+        for g in getattr(cls, 'class_attrs', {}) or {}:        # state that lives on the class until an instance sets it (e.g. a flag)
+            if g not in state and not g.startswith('__') and g not in cls.methods:
+                try:
+                    v_ = it.getattr(a, g)
+                except (Undecidable, PyRaise):
+                    continue
+                if isinstance(v_, bool) or v_ is None or isinstance(v_, (int, Rat)):
+                    state[g] = v_
+        for g, v in state.items():
             if g in defining or g.startswith('__'):
                 continue
             if isinstance(v, dict):
                 nv = dict(v, __probe__=1)
             elif isinstance(v, bool):
                 nv = not v
+            elif v is None:
+                nv = Rat.csym('ALTX_' + g.strip('_'))
+            elif isinstance(v, (list, tuple)):
+                continue
             else:
                 try:
                     nv = to_rat(v) + Rat.csym('ALTX_' + g.strip('_'))
@@ -922,8 +945,21 @@ def _check_eq_hash(ctx, mdl, cls):
     if h is None or e is None:
         ctx.record('R16.7', q, 'missing __eq__/__hash__', False, detail='class defines __eq__=%s __hash__=%s' % (bool(e), bool(h)), where=where(cls.methods.get('__init__')))
         return
+    sem = _eq_hash_semantic(ctx, mdl, cls)
+    if cls.name == 'Path' and sem is not None:
+        # same instance labels as the syntactic rule below (the known finding on _closed is keyed by them)
+        ctx.record('R16.7', q, '__hash__ depends only on fields', sem['hash_same'],
+                   detail='' if sem['hash_same'] else 'two paths with identical segments hash differently', where=where(h))
+        extra = sorted(sem['hash_extra'])
+        ctx.record('R16.7', q, 'hash_fields-eq_fields={%s}' % ','.join(extra), not extra,
+                   detail='' if not extra else '__hash__ moves with %s which __eq__ does not compare: equal objects can hash differently' % extra,
+                   where=where(h), sample={'hash_moves_with': extra})
+        if ne is not None:
+            ctx.record('R16.7', q, '__ne__ negates __eq__', not sem['ne_disagrees'] and not sem['eq_ignores'] and not sem['same_unequal'],
+                       detail='' if not (sem['ne_disagrees'] or sem['eq_ignores'] or sem['same_unequal']) else
+                       '== / != on paths: differing segments compare equal, identical ones unequal, or == and != agree', where=where(ne))
+        return
     if cls.name != 'Path':
-        sem = _eq_hash_semantic(ctx, mdl, cls)
         if sem is not None:
             # decided by probing (whatever helpers the methods are written with); same instance labels as the syntactic rule
             ctx.record('R16.7', q, '__hash__ depends only on fields', sem['hash_same'],
